@@ -77,7 +77,7 @@ def make_meta(template, nap, ns, labels, gain):
         elif kk == "fileSizeBytes":
             v = str(ns * (nap + 1) * 2)
         elif kk == "fileTimeSecs":
-            v = repr(ns / 30000.0)
+            v = np.format_float_positional(ns / 30000.0, trim="-")   # SpikeGLX writes plain decimals (no exponent)
         elif kk == "imSampRate":
             v = "30000"
         elif kk == "imAiRangeMax":
@@ -318,6 +318,11 @@ def expected_status(W):
 
 def window_class(case):
     return "below_overlap" if (case["W"] < 576 and case["W"] % 12 == 0) else "ok"
+
+
+def length_class(case):
+    """recordings shorter than the 144-sample LF taper: the real converter raises in extract_lfp (F-C03-c)"""
+    return "below_taper" if case["ns"] < 144 else "ok"
 
 
 def oracle(case, data, obs):
@@ -682,6 +687,17 @@ def gen_cases(ctx):
                       "wfloat": rng.random() < 0.2, "strpath": rng.random() < 0.2,
                       "compress": rng.random() < 0.15,
                       "access": ["link_dir", "link_files", "relative", "plain", "plain", "plain", "plain", "plain"][i % 8]})
+    # tiny recordings, around the taper (144), the margin (288) and the converter's overlap (576): a single window
+    # that must be recognised as first AND last whatever the announced window count
+    k = 0
+    for ns in (1, 12, 143, 144, 287, 288, 289, 300, 500, 575, 576, 577):
+        for W in (588, 600, 1200, 60000):
+            nap = 384 if (ns, W) in ((500, 588), (300, 600)) else rng.choice([1, 2, 3, 4])
+            cases.append({"nap": nap, "ns": ns, "W": W, "labels": gen_labels(rng, nap), "gain": GAINS[k % 9],
+                          "template": k % len(TEMPLATES), "post_check": k % 3 == 0, "full": nap < 10,
+                          "wfloat": k % 7 == 3, "access": ["plain", "plain", "link_dir", "plain", "relative"][k % 5]
+                          if k % 4 == 0 else "plain"})
+            k += 1
     # windows not above the hard-coded overlap, on recordings no longer than the window (these terminate):
     # known finding F-C03-b when samples are dropped; ns == W is lossless
     for W, ns in [(300, 200), (564, 563), (564, 564), (300, 300), (288, 200), (240, 200), (420, 150)] + (
@@ -760,7 +776,7 @@ def run(ctx):
     dist = {"conversions": 0, "nap384": 0, "multi_window": 0, "unaligned_length": 0, "single_shank": 0,
             "four_shanks": 0, "malformed_window": 0, "post_check": 0, "multi_recon_window": 0,
             "full_model_runs": 0, "values_compared": 0, "codec_lists": 0,
-            "window_below_overlap": 0, "via_symlinked_folder": 0, "via_symlinked_files": 0,
+            "window_below_overlap": 0, "shorter_than_overlap": 0, "shorter_than_taper": 0, "via_symlinked_folder": 0, "via_symlinked_files": 0,
             "via_relative_path_other_cwd": 0, "all_65536_values_files": 0, "float_nwindow": 0, "str_path": 0, "compressed_shanks": 0}
     gains_seen, nontrivial, samples = set(), set(), []
     kernel_full = 0
@@ -775,10 +791,11 @@ def run(ctx):
             verdicts = [("malformed_output", "implementation output cannot be compared with the original: %s: %s"
                          % (type(e).__name__, str(e)[:150]))]
         for tag, msg in verdicts:
-            ctx.fail(msg, dsc, {"kind": tag, "window_class": window_class(case)})
+            ctx.fail(msg, dsc, {"kind": tag, "window_class": window_class(case), "length_class": length_class(case)})
         dist["conversions"] += 1
         malformed = expected_status(case["W"]) is not None
         dist["malformed_window"] += malformed
+        dist["shorter_than_taper"] += case["ns"] < 144
         lc = guarded(ctx, dsc, "layout", layout_case, case, obs) if (malformed or not obs["error"]) else None
         inp, out = lc if lc else (None, None)
         if inp is not None:
@@ -797,6 +814,7 @@ def run(ctx):
             ctx.fail("compress=True left the uncompressed shank .bin next to the .cbin", dsc, {"kind": "compress"})
         if W < 576:
             dist["window_below_overlap"] += 1
+        dist["shorter_than_overlap"] += ns <= 576 and W > 576
         nw = (max(-(-(ns - W) // (W - 576)), 0) + 1) if W > 576 else 1
         dist["nap384"] += nap == 384
         dist["multi_window"] += nw > 1
